@@ -616,6 +616,9 @@ spec fn valid_fi_image<T>(b: Seq<u8>) -> bool {
 
 impl<T: Eq + Hash> FrequentItemsSketch<T> {
     // the part of the sketch invariant (unit fi_sketch) the codec relies on / must establish
+    // the sketch invariant of unit fi_sketch (C07: probe runs, positive counters, weights, sample size ...): abstract here; established by
+    // with_lg_map_sizes and kept by update_with_count (both PROVED in fi_sketch, which also proves that it implies cwf())
+    uninterp spec fn wf(&self) -> bool;
     spec fn cwf(&self) -> bool {
         &&& eq_law::<T>() && self.hash_map.mwf()
         &&& 3 <= self.hash_map.lg_length <= self.lg_max_map_size <= 40
@@ -641,7 +644,7 @@ impl<T: Eq + Hash> FrequentItemsSketch<T> {
     #[verifier::external_body]
     fn with_lg_map_sizes(lg_max_map_size: u8, lg_cur_map_size: u8) -> (r: Self)
       requires eq_law::<T>(), /*@C14.fi.lg_range*/ lg_max_map_size <= 40, lg_cur_map_size <= lg_max_map_size || lg_cur_map_size <= LG_MIN_MAP_SIZE,
-      ensures r.cwf(), r.lg_max_map_size == lgmax3(lg_max_map_size), r.hash_map.lg_length == lgmax3(lg_cur_map_size), r.hash_map.num_active == 0,
+      ensures r.wf(), r.cwf(), r.lg_max_map_size == lgmax3(lg_max_map_size), r.hash_map.lg_length == lgmax3(lg_cur_map_size), r.hash_map.num_active == 0,
         r.stream_weight == 0, r.offset == 0, forall|k: T| !r.hash_map.holds(k),
     { unimplemented!() }
 
@@ -649,8 +652,8 @@ impl<T: Eq + Hash> FrequentItemsSketch<T> {
     // purge happens and the update is exactly `counter(item) += count`
     #[verifier::external_body]
     fn update_with_count(&mut self, item: T, count: u64)
-      requires old(self).cwf(), /*@C14.fi.weight_sum_fits*/ old(self).stream_weight + count <= u64::MAX,
-      ensures final(self).cwf(), final(self).lg_max_map_size == old(self).lg_max_map_size,
+      requires old(self).wf(), old(self).cwf(), /*@C14.fi.weight_sum_fits*/ old(self).stream_weight + count <= u64::MAX,
+      ensures final(self).wf(), final(self).cwf(), final(self).lg_max_map_size == old(self).lg_max_map_size,
         final(self).stream_weight == old(self).stream_weight + count,
         count == 0 ==> final(self).hash_map == old(self).hash_map && final(self).offset == old(self).offset,
         count > 0 && (old(self).hash_map.holds(item) || old(self).hash_map.num_active < old(self).cur_map_cap) ==>
@@ -661,14 +664,14 @@ impl<T: Eq + Hash> FrequentItemsSketch<T> {
     // panics for lg >= 64, allocates 2^lg slots below that) ...
     fn vx_with_lg_map_sizes(lg_max_map_size: u8, lg_cur_map_size: u8) -> (r: Self)
       requires eq_law::<T>(), lg_cur_map_size <= lg_max_map_size || lg_cur_map_size <= LG_MIN_MAP_SIZE,
-      ensures r.cwf(), r.lg_max_map_size == lgmax3(lg_max_map_size), r.hash_map.lg_length == lgmax3(lg_cur_map_size), r.hash_map.num_active == 0,
+      ensures r.wf(), r.cwf(), r.lg_max_map_size == lgmax3(lg_max_map_size), r.hash_map.lg_length == lgmax3(lg_cur_map_size), r.hash_map.num_active == 0,
         r.stream_weight == 0, r.offset == 0, forall|k: T| !r.hash_map.holds(k),
     { Self::with_lg_map_sizes(lg_max_map_size, lg_cur_map_size) }
 
     // ... and update_with_count with counters straight from the image (`stream_weight += count` overflows)
     fn vx_update_with_count(&mut self, item: T, count: u64)
-      requires old(self).cwf(),
-      ensures final(self).cwf(), final(self).lg_max_map_size == old(self).lg_max_map_size,
+      requires old(self).wf(), old(self).cwf(),
+      ensures final(self).wf(), final(self).cwf(), final(self).lg_max_map_size == old(self).lg_max_map_size,
         final(self).stream_weight == old(self).stream_weight + count,
         count == 0 ==> final(self).hash_map == old(self).hash_map && final(self).offset == old(self).offset,
         count > 0 && (old(self).hash_map.holds(item) || old(self).hash_map.num_active < old(self).cur_map_cap) ==>
@@ -866,7 +869,7 @@ impl<T: Eq + Hash> FrequentItemsSketch<T> {
         loop
           invariant
             0 <= j <= zs.len(), zs == zip_seq(ks, vs), ks.len() == vs.len(), vx_it2.all() == zs, vx_it2.idx() == j,
-            sketch.cwf(), sketch.lg_max_map_size == lgmax3(lg_max),
+            sketch.wf(), sketch.cwf(), sketch.lg_max_map_size == lgmax3(lg_max),
             vld ==> distinct(ks) && vals_pos(vs) && ks.len() <= cap_of_lg(lg) && sum_u64(vs) <= u64::MAX,
             /*@C13.fi.rows*/ vld ==> loaded(sketch.hash_map, sketch.stream_weight, sketch.offset, ks, vs, j, lg),
           ensures j == zs.len()
